@@ -2,6 +2,7 @@ package c08
 
 import (
 	"math/big"
+	"math/bits"
 	"strconv"
 	"strings"
 	"unicode"
@@ -173,12 +174,39 @@ type gen struct {
 	calls    int
 	maxDepth int
 	fnSeen   []string
+	// wild: arities 0-5 at random, unknown helpers, values of any kind in any
+	// position; otherwise the documented shapes (most of which compile cleanly)
+	wild bool
 }
 
-func (g *gen) intn(n int, label string) int { return rapid.IntRange(0, n-1).Draw(g.t, label) }
-func (g *gen) pct(p int, label string) bool { return rapid.IntRange(0, 99).Draw(g.t, label) < p }
+// intn draws uniformly from [0,n). rapid's integer generators deliberately
+// favour 0, 1 and the maximum (a 2% branch written with IntRange(0,99) fires
+// 17% of the time), so the number is assembled from unbiased single bits,
+// with rejection; it still shrinks towards 0.
+func (g *gen) intn(n int, label string) int {
+	if n <= 1 {
+		return 0
+	}
+	k := bits.Len(uint(n - 1))
+	for {
+		v := 0
+		for i := 0; i < k; i++ {
+			v <<= 1
+			if bitGen.Draw(g.t, label) {
+				v |= 1
+			}
+		}
+		if v < n {
+			return v
+		}
+	}
+}
+
+var bitGen = rapid.Bool()
+
+func (g *gen) pct(p int, label string) bool { return g.intn(100, label) < p }
 func (g *gen) pick(l []string, label string) string {
-	return l[rapid.IntRange(0, len(l)-1).Draw(g.t, label)]
+	return l[g.intn(len(l), label)]
 }
 
 var longUnits = []string{"x", "ab ", "\x00", "1", "é", "\xff", "9", "1\x00", "a,", "{", "\\", "\"", " ", "%d"}
@@ -232,7 +260,7 @@ func (g *gen) constValue(k kind) string {
 	if k.size() {
 		return g.sizeValue()
 	}
-	if k != kAny && g.pct(15, "wildc") {
+	if k != kAny && g.wild && g.pct(20, "wildc") {
 		return g.pick(poolAny, "anyval")
 	}
 	return g.pick(pool(k), "val")
@@ -299,21 +327,21 @@ func (g *gen) unknownName() string {
 }
 
 func (g *gen) fnName() string {
-	if g.pct(4, "unknown") {
+	if g.wild && g.pct(5, "unknown") {
 		return g.unknownName()
 	}
 	return g.pick(functionNames, "fn")
 }
 
 func (g *gen) arity(spec fnSpec) int {
-	if g.pct(40, "anyarity") {
+	if g.wild && g.pct(45, "anyarity") {
 		return g.intn(6, "arity")
 	}
 	n := len(spec.args)
 	if spec.hasVar {
-		n += 1 + g.intn(3, "varargs")
-	} else if n > 1 && g.pct(30, "fewer") {
-		n -= 1 + g.intn(n-1, "drop")
+		n += spec.minVar + g.intn(3, "varargs")
+	} else if spec.opt > 0 {
+		n -= g.intn(spec.opt+1, "optargs")
 	}
 	return n
 }
@@ -390,7 +418,7 @@ func (g *gen) arg(k kind, depth int) *node {
 	if k.size() {
 		c := g.intn(100, "sizeform")
 		switch {
-		case k == kCSize && c < 90, k == kSize && c < 45:
+		case k == kCSize && (c < 85 || !g.wild), k == kSize && c < 45:
 			return lit(g.sizeValue())
 		case c < 92:
 			return g.ref(k, nil)
@@ -399,7 +427,7 @@ func (g *gen) arg(k kind, depth int) *node {
 		return raw(g.pick([]string{"{len abc}", "{@len {@ a b c}}", "{sumi 1 2}", "{divi 7 2}", "{modi 7 0}", "{! 2^3}", "{mini 3 {len abcdef}}"}, "sizecall"), false)
 	}
 	if k.constant() {
-		if g.pct(85, "constform") {
+		if !g.wild || g.pct(75, "constform") {
 			return lit(g.constValue(k))
 		}
 		if g.pct(50, "constcall") && depth < g.maxDepth {
